@@ -60,8 +60,6 @@ def check(run, replay=None):
     tier, seed = run.tier, run.seed
     rng = random.Random(seed * 7919 + 4)
     C.standard_coq_phase(run, CID)
-    okr, _ = C.coq_make(["theories/Refuted_C04.vo"])
-    run.coverage["refuted_known_finding_still_machine_checked"] = bool(okr)
     ok, msg = C.ensure_ocaml()
     if not ok:
         run.finding("build:ocaml", "broken-obligation", msg, {})
